@@ -276,14 +276,24 @@ impl Host<'_> {
         } else {
             v.extend(b"1!z");
             let n = self.rng.usize(6);
-            for _ in 0..n {
-                if self.rng.chance(1, 3) {
+            // the last element may be a repeat group that the definition leaves open
+            let open_last = n > 0 && self.rng.chance(1, 4);
+            for k in 0..n {
+                if self.rng.chance(1, 3) || (open_last && k + 1 == n) {
                     let rep = if self.big.is_empty() { self.rng.below(20) as i64 } else { *self.rng.pick(self.big) };
                     v.extend(format!("!{rep};").into_bytes());
-                    for _ in 0..1 + self.rng.usize(3) {
-                        v.extend(format!("{:02X}", self.rng.byte()).into_bytes());
+                    if self.rng.chance(1, 2) {
+                        v.extend(self.hex_units());
+                    } else {
+                        for _ in 0..1 + self.rng.usize(3) {
+                            v.extend(format!("{:02X}", self.rng.byte()).into_bytes());
+                        }
                     }
-                    v.push(b';');
+                    if !(open_last && k + 1 == n) {
+                        v.push(b';');
+                    }
+                } else if self.rng.chance(1, 3) {
+                    v.extend(self.hex_units());
                 } else if self.rng.chance(1, 4) {
                     // an invocation inside the body: the only way one macro can call another (or itself)
                     let inv = format!("\x1b[{}*z", self.rng.below(4));
@@ -298,6 +308,32 @@ impl Host<'_> {
         }
         v.extend(b"\x1b\\");
         piece(v, true)
+    }
+
+    /// Hex pairs spelling a multi-byte unit: well-formed UTF-8, encoded surrogates, values above
+    /// U+10FFFF, overlong forms, lone lead and continuation bytes.
+    fn hex_units(&mut self) -> Vec<u8> {
+        const UNITS: &[&[u8]] = &[
+            &[0xC3, 0xA9],
+            &[0xE2, 0x82, 0xAC],
+            &[0xF0, 0x9F, 0x98, 0x80],
+            &[0xED, 0x9F, 0xBF],
+            &[0xED, 0xA0, 0x80],
+            &[0xED, 0xAF, 0xBF],
+            &[0xED, 0xB0, 0x80],
+            &[0xED, 0xBF, 0xBF],
+            &[0xEE, 0x80, 0x80],
+            &[0xF4, 0x8F, 0xBF, 0xBF],
+            &[0xF4, 0x90, 0x80, 0x80],
+            &[0xF7, 0xBF, 0xBF, 0xBF],
+            &[0xC0, 0x80],
+            &[0xE0, 0x80, 0x80],
+            &[0x80],
+            &[0xC3],
+            &[0xFF],
+        ];
+        let u = *self.rng.pick(UNITS);
+        u.iter().flat_map(|b| format!("{b:02X}").into_bytes()).collect()
     }
 
     fn font_dcs(&mut self) -> Piece {
@@ -329,6 +365,9 @@ impl Host<'_> {
             let mut d = hdr;
             d.extend(data);
             data = d;
+        }
+        if matches!(self.profile, Profile::Unicode) && self.rng.chance(1, 24) {
+            data = crate::gen_load::big_font(self.rng);
         }
         let mut v = format!("\x1bPCTerm:Font:{slot}:").into_bytes();
         v.extend(encode(&data).into_bytes());
